@@ -9,7 +9,10 @@ S=/var/tmp/seedrun.$$
 mkdir -p "$S"
 git -C /repo worktree add -q --detach "$S/repo" HEAD || exit 2
 if ! git -C "$S/repo" apply "$P/patch.diff"; then echo "patch does not apply"; git -C /repo worktree remove --force "$S/repo"; rm -rf "$S"; exit 2; fi
-rsync -a --exclude .git --exclude .work --exclude replays /verif/ "$S/verif/"
+mkdir -p "$S/verif"
+# committed state of /verif at ${SEED_VERIF_REV:-HEAD} (builders' uncommitted work in progress is left out) + the compiled .lake as a cache
+git -C /verif archive "${SEED_VERIF_REV:-HEAD}" | tar -x -C "$S/verif"
+rsync -a /verif/lean/.lake "$S/verif/lean/" 2>/dev/null
 for prop in "$@"; do
   out=$(cd "$S/verif" && DEMETER_REPO="$S/repo" VERIF_TIER="${VERIF_TIER:-quick}" timeout 3000 ./check "$prop" 2>&1 | grep -v conda); rc=$?
   echo "$out" > "$S/$prop.log"
